@@ -1216,6 +1216,7 @@ func firstLine(s string) string {
 // ---- kinds ----
 
 func registerHandoverKinds(c *core.Ctx) {
+	registerHandoverTpmKind(c) // handover_tpm.go
 	c.Register(&core.Kind{Name: "handover.adopt", Eval: func(p core.Params) (string, string) {
 		s := hoGet(p)
 		if s.adoptLine == "" {
@@ -1359,6 +1360,10 @@ func RunC03(c *core.Ctx) {
 	hoCur = w
 	defer func() { hoCur = nil; w.close() }()
 	t0 := time.Now()
+	if os.Getenv("VERIF_C03_PART") == "tpm" { // development aid (the check never sets it)
+		runC03TPM(c)
+		return
+	}
 
 	cfgs, rounds := hoQuickCfgs(), 2
 	cfgs = append(cfgs, hoMixedCfgs()...)
@@ -1577,6 +1582,8 @@ func RunC03(c *core.Ctx) {
 			}
 		}
 	}
+	// ---- part 3b: DI of a TPM-backed device while one TPM command fails (handover_tpm.go) ----
+	runC03TPM(c)
 	// ---- part 4: the process survives a TO2 that fails in its first service-info exchange ----
 	for i, cf := range hoQuickCfgs() {
 		if cf.Reuse || (c.Quick() && i > 0) {
